@@ -15,7 +15,23 @@ CFG = {
         "and printers never panic. The observation currently FAILS for the fixed point in three listed ways (known "
         "findings: blank line after `(`, comments without a printer slot, width/newline-driven re-layout), so the "
         "fixed-point clause of C20 does not hold for the current code; what the check enforces there is the weaker "
-        "statement that a second pass keeps the token stream, parses, does not panic and settles within 4 passes."
+        "statement that a second pass keeps the token stream, parses, does not panic and settles within 4 passes. "
+        "(c) ROUND 2 — the rowan parser's event protocol and tree builder (event.rs Sink::finish incl. the "
+        "forward_parent / wrapper walks, skip_whitespace, token, text_offset, error_starts_at; rowan's GreenNodeBuilder; "
+        "marker.rs start/complete_raw/forget/precede/wrap_raw) are modelled statement by statement "
+        "(Model/FmtDiagSink.lean) and PROVED, for every event list and lexeme list: sink_yield (the leaves of the built "
+        "tree are the lexemes 0..off-1, each once, in input order: nothing duplicated, skipped or reordered), "
+        "sink_never_hard_oob (text_offset's panic is dead code), and, under `the first event is the root Start` and "
+        "`one Token event per kind parse() handed to the parser`, sink_code_complete (everything outside the tree is "
+        "trivia: no code lexeme is lost) and sink_token_index_safe (lexemes[offset] in bounds) — both NEED the trivia "
+        "predicate of parse()'s filter and of Sink::skip_whitespace to agree; the two predicates are extracted from "
+        "their own sites into Generated/FmtTrivia.lean and trivia_sites_agree proves the tables equal; "
+        "trivia_disagreement_loses_code is the planted ERROR_COMMENT_* bug as a theorem. Marker API: "
+        "marker_api_binary_wf / marker_api_wrap_prev_wf (the call sequences of expr_binding_power and of "
+        "wrap(.., previous_pos) yield well-formed lists the sink consumes completely), "
+        "forget_after_precede_reaches_unreachable (an API hazard the drop bomb does not exclude). "
+        "same_tokens_check_sound / same_tokens_mod_comma_sound: what the layout classifiers mean by `same tokens` "
+        "(equal non-trivia lexeme sequences, optionally up to a `,` before a closer) and that the driver's check decides it."
     ),
     "level_note": (
         "Trusted: Lean kernel; the statement-by-statement translator extract/ex_c20.py (expression language: let, "
@@ -23,8 +39,15 @@ CFG = {
         "loop; the hand models Fmt.annotate (hi-doc bound) and FmtMain.loop/main, tied by the differential run of the "
         "real format() (error ranges taken from the real parser) and of the real jrsonnet-fmt binary (exit code and "
         "stdout for plain / --test / --conv-limit / --indent / --hard-tabs runs, format table recorded in-process). "
-        "DESIGN's sink_total / marker_api_preserves_wf (event-sink state machine) and norm_idempotent (C19) are not "
-        "built: parser and tree-builder crash-freedom is observation only."
+        "Round 2 tie of the sink model: a cfg(jrsonnet_verif) hook records the event list and lexemes of every real "
+        "parse(); for every generated input (<= 700 bytes) the Lean model of Sink::finish + GreenNodeBuilder runs on "
+        "the REAL events and must reproduce the real tree (pre-order of node kinds, token kinds and ranges), the real "
+        "error ranges and the yield; the model's static well-formedness predicate wfb (no Pending, pointers land on "
+        "events of the same sort, no event pointed to twice, first = root Start, last = Finish, statically linearised "
+        "sequence is one tree, Token kinds = filtered lexeme kinds) must hold of every real event list. "
+        "NOT proved: DESIGN's sink_total in full (wfb => none of the event-side sites unreachable!/events[idx]/"
+        "expect(starts == finishes)/builder asserts is reached) and marker_api_preserves_wf for arbitrary call "
+        "sequences — the event-side crash-freedom stays observation, checked against wfb on every input."
     ),
     "technique": "Lean 4 proof of diagnostic-range and main-loop logic (source-translated + differential tie) + observation of crash-freedom and of the layout fixed point",
     "engines": ["c20"],
@@ -32,7 +55,8 @@ CFG = {
     "timeout": 1500,
     "assumptions": [
         "layout idempotence (format∘format = format) is a hypothesis of test_accepts_fixpoint/produce_then_test_accepts, not a theorem; it is observed on generated valid programs × indent {tabs,2,4} and is known to fail in the listed c20_second_pass_* ways",
-        "crash-freedom of lexer, rowan parser, Sink::finish, the printers and dprint-core is observed (random byte strings, token soup over the whole token vocabulary, mutated and truncated valid programs), not proved",
+        "the sink theorems take the event list as given: that Parser::parse emits one Token per non-trivia kind and opens the root first is checked per input (wfb), not proved for the 900 lines of grammar functions",
+        "crash-freedom of lexer, rowan parser, the event-side panic sites of Sink::finish, the printers and dprint-core is observed (random byte strings, token soup over the whole token vocabulary, mutated and truncated valid programs), not proved",
         "error ranges handed to the diagnostic model are the ones the real parser reported; that they satisfy start <= end <= len is not needed (format_meets_spec holds for arbitrary ranges)",
         "`--conv-limit n` (n>0, documented as a debug option) ends in `assert!(iteration <= conv_limit)` = a panic when the layout does not settle; modelled as Outcome.notConverged / exit 101 and not counted against 'never panics'",
         "--in-place / file I/O paths of jrsonnet-fmt are not modelled; inputs reach the binary through a file",
